@@ -109,6 +109,9 @@ def dds_hash(x: Any) -> PyHash:
             return _algo_str(elt)
         if isinstance(elt, float):
             return _algo_bytes(struct.pack("!d", elt))
+        if isinstance(elt, bool):
+            # (a bool is an int for isinstance, but f(True) and f(1) are different calls)
+            return _algo_bytes(struct.pack("!?", elt))
         if isinstance(elt, int):
             return _algo_bytes(struct.pack("!l", elt))
         if isinstance(elt, CanonicalPath):
